@@ -1,6 +1,8 @@
 import TracklibVerif.Model.MapMatchNet
 import TracklibVerif.Drv.Util
-/-! Driver handler for C10 (map-matching candidates and inference), `Float` instance of `Model/MapMatch`.
+/-! Driver handler for C10 (map-matching), `Float` instances of `Model/MapMatch` (command `match`: candidate loop and inference
+on candidate lists and decoded indices given by the caller) and of `Model/MapMatchNet` (command `net`: network construction,
+spatial index, search unit, candidates, front end; the caller only says which edge the decoder chose).
 Floats are IEEE bit patterns.
   match <radius> <edges> <track> <cands> <idx>
      edges : edge geometries separated by `|`, vertices by `;`, `x,y`        (edge number = position)
